@@ -115,92 +115,7 @@ func runC11(c *Ctx) {
 		c.verdict(len(others) == 0, c.nm(top)+" | no close outside the Once body", c.P.Pos(top.Pos()), "closes only inside Do", "a channel is closed outside the sync.Once body (double close possible)", c.ats(others)...)
 	})
 
-	c.rule("C11.V1", "registry keys never collide: the id under which a subscriber is registered (and later cancelled) is assigned only from a monotonically increasing counter (atomic.AddUint64(&m.<counter>, 1)) that nothing else writes, so a new registration cannot replace a live subscriber and a cancellation cannot hit another one", func() {
-		idF := c.field("blockntfns", "newSubscription", "id")
-		add := atomicOp("Add")
-		var bad, sites []string
-		var counter *types.Var
-		n := 0
-		for _, f := range c.P.Funcs {
-			for _, st := range find(f, storeToField(idF)) {
-				n++
-				sites = append(sites, c.nm(f)+"@"+c.at(st))
-				call, ok := st.(*ssa.Store).Val.(*ssa.Call)
-				if !ok || !add(call) {
-					bad = append(bad, "id assigned at "+c.at(st)+" from something other than an atomic counter increment")
-					continue
-				}
-				fa, ok := call.Call.Args[0].(*ssa.FieldAddr)
-				if k, isC := ir.ConstInt(call.Call.Args[1]); !ok || !isC || k != 1 {
-					bad = append(bad, "id assigned at "+c.at(st)+" not from counter+1")
-					continue
-				}
-				counter = ir.FieldOfAddr(fa)
-			}
-		}
-		if counter != nil {
-			// the counter is touched by nothing but that increment
-			for _, f := range c.P.Funcs {
-				ir.Instrs(f, func(in ssa.Instruction) {
-					fa, ok := in.(*ssa.FieldAddr)
-					if !ok || ir.FieldOfAddr(fa) != counter {
-						return
-					}
-					for _, r := range ir.Refs(fa) {
-						if call, ok := r.(*ssa.Call); ok && add(call) {
-							continue
-						}
-						bad = append(bad, "counter "+counter.Name()+" accessed at "+c.at(r)+" other than by the increment")
-					}
-				})
-			}
-		}
-		sort.Strings(bad)
-		c.verdict(len(bad) == 0 && n == 1 && counter != nil, "blockntfns | subscriber ids come from a monotonic counter", "-", "id = atomic.AddUint64(&m."+nameOf(counter)+", 1), single assignment site", join(bad)+fmt.Sprintf(" (%d assignment site(s))", n), sites...)
-		// the registry is keyed by that id on insert and delete
-		subs := c.field("blockntfns", "SubscriptionManager", "subscribers")
-		okKey := 0
-		cidF := c.field("blockntfns", "cancelSubscription", "id")
-		var regFns []*ssa.Function
-		seenFn := map[*ssa.Function]bool{}
-		for _, name := range []string{fnHandleNew, fnHandleCan} {
-			hs, _ := c.hostsOf(name)
-			for _, h := range hs {
-				if !seenFn[h] {
-					seenFn[h] = true
-					regFns = append(regFns, h)
-				}
-			}
-		}
-		for _, f := range regFns {
-			for _, x := range find(f, anyOf(mapUpdate(loadsField(subs)), mapDelete(loadsField(subs)))) {
-				var key ssa.Value
-				switch y := x.(type) {
-				case *ssa.MapUpdate:
-					key = y.Key
-				default:
-					key = ir.CallOf(x).Args[1]
-				}
-				if ir.DerivesFrom(key, func(v ssa.Value) bool {
-					fa, ok := v.(*ssa.FieldAddr)
-					return ok && (ir.FieldOfAddr(fa) == idF || ir.FieldOfAddr(fa) == cidF)
-				}) {
-					okKey++
-				}
-			}
-		}
-		// the cancel message carries the id of the subscription it was created for
-		okCancel := false
-		for _, f := range c.P.Funcs {
-			for _, st := range find(f, storeToField(cidF)) {
-				okCancel = ir.DerivesFrom(st.(*ssa.Store).Val, func(v ssa.Value) bool {
-					fa, ok := v.(*ssa.FieldAddr)
-					return ok && ir.FieldOfAddr(fa) == idF
-				})
-			}
-		}
-		c.verdict(okKey >= 2 && okCancel, "blockntfns | registry insert and delete are keyed by the subscriber's id", "-", "m.subscribers[sub.id] = sub; delete(m.subscribers, msg.id) with msg.id = sub.id", fmt.Sprintf("the registry is no longer keyed by the subscriber id on both insert and delete (%d keyed accesses, cancel carries sub.id: %v)", okKey, okCancel))
-	})
+	c.rule("C11.V1", monotonicSubscriberIDsDoc, func() { c.monotonicSubscriberIDs() })
 
 	c.rule("C11.W1", "single sender and quit escapes: only the per-subscription forwarder goroutine sends on ntfnChan (wg-tracked, started in NewSubscription); only notifySubscriber enqueues; both block only in selects that also wait on the subscriber's and the manager's quit; the forwarder forwards exactly what it dequeued", func() {
 		c.whoMay("send on newSubscription.ntfnChan", sendOn(loadsField(ns("ntfnChan"))), []string{fnNewSub}, 1)
@@ -325,6 +240,73 @@ func (c *Ctx) fanOutAll() {
 		}
 	})
 	c.mustFollowIter(all, "each registered subscriber", starts, callTo(smM("notifySubscriber")), "m.notifySubscriber(subscriber, ntfn)", nil, 1)
+	// ... and the loop goes on to the last subscriber: it is left only when the
+	// range is exhausted (or, written out in the loop itself, on the arm that
+	// saw the manager's own quit channel closed); one subscriber that has
+	// gone away must not end the fan-out for those behind it in the map
+	ir.Instrs(all, func(in ssa.Instruction) {
+		n, ok := in.(*ssa.Next)
+		if !ok {
+			return
+		}
+		r, ok := n.Iter.(*ssa.Range)
+		if !ok || !loadsField(sm("subscribers"))(r.X) {
+			return
+		}
+		h := ir.LoopHeaderOf(in.Block())
+		if h == nil {
+			h = in.Block()
+		}
+		exhausted := map[ir.Edge]bool{}
+		for _, ex := range ir.Result(n, 0) {
+			for _, br := range ir.TrueBranches(ex) {
+				exhausted[br.Other()] = true
+			}
+		}
+		quitArm := map[ir.Edge]bool{}
+		ir.Instrs(all, func(x ssa.Instruction) {
+			sel, ok := x.(*ssa.Select)
+			if !ok {
+				return
+			}
+			for i, st := range sel.States {
+				if st.Dir != types.RecvOnly || !loadsField(sm("quit"))(st.Chan) {
+					continue
+				}
+				for _, rr := range ir.Refs(sel) {
+					if e, isEx := rr.(*ssa.Extract); isEx && e.Index == 0 {
+						for _, ib := range ir.IntEqBranches(e) {
+							if ib.K == int64(i) {
+								quitArm[ib.Edge()] = true
+							}
+						}
+					}
+				}
+			}
+		})
+		var early []string
+		for _, e := range ir.LoopExits(h) {
+			if exhausted[e] {
+				continue
+			}
+			okQuit := false
+			for q := range quitArm {
+				if ir.EdgeDominates(all, q, e.From) {
+					okQuit = true
+				}
+			}
+			// ... or on the answer of a helper that gives that answer only
+			// behind its own wait on the manager's quit channel
+			if !okQuit {
+				okQuit = c.leftOnlyAtManagerQuit(e, sm("quit"))
+			}
+			if !okQuit {
+				early = append(early, c.at(e.From.Instrs[len(e.From.Instrs)-1]))
+			}
+		}
+		sort.Strings(early)
+		c.verdict(len(early) == 0, c.nm(all)+" | the fan-out loop ends only when every subscriber was served", c.at(in), "the only way out of the loop over m.subscribers is the end of the range", "the loop over m.subscribers can be left early at "+join(uniq(early))+": the subscribers behind that point in the map miss the event")
+	})
 	okArgs := false
 	for _, call := range find(all, callTo(smM("notifySubscriber"))) {
 		a := ir.CallOf(call).Args
@@ -478,4 +460,183 @@ func (c *Ctx) eventsUnlocked() {
 	}
 	sort.Strings(bad)
 	c.verdict(n >= 2 && len(bad) == 0, "neutrino.blockManager | block events are sent with no mutex held", "", fmt.Sprintf("%d emit site(s), none inside a critical section", n), join(bad)+fmt.Sprintf(" (%d emit sites)", n), c.ats(sites)...)
+}
+
+const monotonicSubscriberIDsDoc = "registry keys never collide: the id under which a subscriber is registered (and later cancelled) is assigned only from a monotonically increasing counter (atomic.AddUint64(&m.<counter>, 1)) that nothing else writes, so a new registration cannot replace a live subscriber and a cancellation cannot hit another one"
+
+// monotonicSubscriberIDs: see monotonicSubscriberIDsDoc.
+func (c *Ctx) monotonicSubscriberIDs() {
+	idF := c.field("blockntfns", "newSubscription", "id")
+	add := atomicOp("Add")
+	var bad, sites []string
+	var counter *types.Var
+	n := 0
+	for _, f := range c.P.Funcs {
+		for _, st := range find(f, storeToField(idF)) {
+			n++
+			sites = append(sites, c.nm(f)+"@"+c.at(st))
+			call, ok := st.(*ssa.Store).Val.(*ssa.Call)
+			if !ok || !add(call) {
+				bad = append(bad, "id assigned at "+c.at(st)+" from something other than an atomic counter increment")
+				continue
+			}
+			fa, ok := call.Call.Args[0].(*ssa.FieldAddr)
+			if k, isC := ir.ConstInt(call.Call.Args[1]); !ok || !isC || k != 1 {
+				bad = append(bad, "id assigned at "+c.at(st)+" not from counter+1")
+				continue
+			}
+			counter = ir.FieldOfAddr(fa)
+		}
+	}
+	if counter != nil {
+		// the counter is touched by nothing but that increment
+		for _, f := range c.P.Funcs {
+			ir.Instrs(f, func(in ssa.Instruction) {
+				fa, ok := in.(*ssa.FieldAddr)
+				if !ok || ir.FieldOfAddr(fa) != counter {
+					return
+				}
+				for _, r := range ir.Refs(fa) {
+					if call, ok := r.(*ssa.Call); ok && add(call) {
+						continue
+					}
+					bad = append(bad, "counter "+counter.Name()+" accessed at "+c.at(r)+" other than by the increment")
+				}
+			})
+		}
+	}
+	sort.Strings(bad)
+	c.verdict(len(bad) == 0 && n == 1 && counter != nil, "blockntfns | subscriber ids come from a monotonic counter", "-", "id = atomic.AddUint64(&m."+nameOf(counter)+", 1), single assignment site", join(bad)+fmt.Sprintf(" (%d assignment site(s))", n), sites...)
+	// the registry is keyed by that id on insert and delete
+	subs := c.field("blockntfns", "SubscriptionManager", "subscribers")
+	okKey := 0
+	cidF := c.field("blockntfns", "cancelSubscription", "id")
+	var regFns []*ssa.Function
+	seenFn := map[*ssa.Function]bool{}
+	for _, name := range []string{fnHandleNew, fnHandleCan} {
+		hs, _ := c.hostsOf(name)
+		for _, h := range hs {
+			if !seenFn[h] {
+				seenFn[h] = true
+				regFns = append(regFns, h)
+			}
+		}
+	}
+	for _, f := range regFns {
+		for _, x := range find(f, anyOf(mapUpdate(loadsField(subs)), mapDelete(loadsField(subs)))) {
+			var key ssa.Value
+			switch y := x.(type) {
+			case *ssa.MapUpdate:
+				key = y.Key
+			default:
+				key = ir.CallOf(x).Args[1]
+			}
+			if ir.DerivesFrom(key, func(v ssa.Value) bool {
+				fa, ok := v.(*ssa.FieldAddr)
+				return ok && (ir.FieldOfAddr(fa) == idF || ir.FieldOfAddr(fa) == cidF)
+			}) {
+				okKey++
+			}
+		}
+	}
+	// the cancel message carries the id of the subscription it was created for
+	okCancel := false
+	for _, f := range c.P.Funcs {
+		for _, st := range find(f, storeToField(cidF)) {
+			okCancel = ir.DerivesFrom(st.(*ssa.Store).Val, func(v ssa.Value) bool {
+				fa, ok := v.(*ssa.FieldAddr)
+				return ok && ir.FieldOfAddr(fa) == idF
+			})
+		}
+	}
+	c.verdict(okKey >= 2 && okCancel, "blockntfns | registry insert and delete are keyed by the subscriber's id", "-", "m.subscribers[sub.id] = sub; delete(m.subscribers, msg.id) with msg.id = sub.id", fmt.Sprintf("the registry is no longer keyed by the subscriber id on both insert and delete (%d keyed accesses, cancel carries sub.id: %v)", okKey, okCancel))
+}
+
+// leftOnlyAtManagerQuit: edge e is one arm of a test of the boolean result of
+// a module function, and that function returns the value e stands for only
+// behind the arm of a select that received from the manager's quit channel
+// (field quit), nowhere else.
+func (c *Ctx) leftOnlyAtManagerQuit(e ir.Edge, quit *types.Var) bool {
+	iff, ok := e.From.Instrs[len(e.From.Instrs)-1].(*ssa.If)
+	if !ok {
+		return false
+	}
+	c.graph() // srcFunc needs the module function table
+	for _, in := range e.From.Parent().Blocks {
+		for _, x := range in.Instrs {
+			call, isCall := x.(*ssa.Call)
+			if !isCall {
+				continue
+			}
+			bt, isB := call.Type().Underlying().(*types.Basic)
+			if !isB || bt.Kind() != types.Bool {
+				continue
+			}
+			for _, br := range ir.TrueBranches(call) {
+				if br.If != iff || br.Pol != 0 {
+					continue
+				}
+				want := br.Idx == e.Succ // the value of the call on edge e
+				callee := call.Call.StaticCallee()
+				if callee == nil {
+					return false
+				}
+				fns := c.srcFunc(callee)
+				if len(fns) != 1 {
+					return false
+				}
+				f := fns[0]
+				arm := map[ir.Edge]bool{}
+				ir.Instrs(f, func(y ssa.Instruction) {
+					sel, isSel := y.(*ssa.Select)
+					if !isSel {
+						return
+					}
+					for i, st := range sel.States {
+						if st.Dir != types.RecvOnly || !loadsField(quit)(st.Chan) {
+							continue
+						}
+						for _, rr := range ir.Refs(sel) {
+							if ex, isEx := rr.(*ssa.Extract); isEx && ex.Index == 0 {
+								for _, ib := range ir.IntEqBranches(ex) {
+									if ib.K == int64(i) {
+										arm[ib.Edge()] = true
+									}
+								}
+							}
+						}
+					}
+				})
+				if len(arm) == 0 {
+					return false
+				}
+				n := 0
+				for _, b := range f.Blocks {
+					ret, isRet := b.Instrs[len(b.Instrs)-1].(*ssa.Return)
+					if !isRet || len(ret.Results) != 1 {
+						continue
+					}
+					k, isC := ir.ConstBool(ret.Results[0])
+					if !isC {
+						return false
+					}
+					if k != want {
+						continue
+					}
+					n++
+					dominated := false
+					for q := range arm {
+						if ir.EdgeDominates(f, q, b) {
+							dominated = true
+						}
+					}
+					if !dominated {
+						return false
+					}
+				}
+				return n > 0
+			}
+		}
+	}
+	return false
 }
